@@ -14,10 +14,11 @@ import (
 func init() { props["C15"] = runC15 }
 
 type c15Aux struct {
-	rtts   []int64
-	age    map[int64]int // samples since the last occurrence of each RTT value (0 = the latest sample)
-	maxEst int           // largest estimate since the baseline last increased (Vegas staleness bound)
-	lastB  int64
+	unsetRun int // consecutive samples after which the baseline was unset
+	rtts     []int64
+	age      map[int64]int // samples since the last occurrence of each RTT value (0 = the latest sample)
+	maxEst   int           // largest estimate since the baseline last increased (Vegas staleness bound)
+	lastB    int64
 }
 
 func c15Hooks() limHooks {
@@ -28,7 +29,7 @@ func c15Hooks() limHooks {
 			a := li.aux.(*c15Aux)
 			// the oracle depends on the history only through the age of the last occurrence of each RTT
 			// value (capped) and the largest estimate since the baseline last rose
-			return fmt.Sprint(a.ages(), a.maxEst, a.lastB)
+			return fmt.Sprint(a.ages(), a.maxEst, a.lastB, a.unsetRun)
 		},
 		step: func(li *limInst, s sample, before, after int, pm string, t *mc.Tr) {
 			cls := li.cfg.algo
@@ -62,11 +63,15 @@ func c15Hooks() limHooks {
 				a.lastB = b
 			}()
 			if b == 0 {
-				if li.cfg.algo == "vegas" {
-					t.Fail("vegas/baseline-unset", "baseline is unset after sample %d (rtt=%d)", n, s.rtt)
+				// unset is allowed (the sample that resets the baseline may leave it so), but the next
+				// sample has an RTT > 0 and must seed it: two in a row means no baseline is being kept
+				a.unsetRun++
+				if a.unsetRun >= 2 {
+					t.Fail(cls+"/baseline-unset", "baseline is still unset after %d consecutive samples (last rtt=%d)", a.unsetRun, s.rtt)
 				}
 				return
 			}
+			a.unsetRun = 0
 			if b > s.rtt {
 				t.Fail(cls+"/baseline-above-sample", "baseline %d exceeds the RTT %d of the sample just processed", b, s.rtt)
 				return
